@@ -20,7 +20,8 @@
 //   receiver    every field read is a parameter; every field assigned is returned after the results
 //   expressions constants (folded by go/types), + - * / % & | (constant non-zero divisors only),
 //               comparisons, && || !, len, conversions between the integer types, []byte(s), string(b),
-//               append(a, b...), []byte{x}, string concatenation, fmt.Errorf / package-level error values
+//               append(a, b...), []byte{x}, string concatenation, bytes.HasPrefix / bytes.TrimPrefix, fmt.Errorf / errors.New /
+//               package-level error values
 package main
 
 import (
@@ -60,6 +61,10 @@ var targets = []target{
 	{"db", "DbBase", "CheckPut", "db_CheckPut"},
 	{"db", "DbBase", "SetLock", "db_SetLock"},
 	{"render", "Menu", "reset", "render_Menu_reset"},
+	{"db", "DbBase", "FromSessionKey", "db_FromSessionKey"},
+	{"db", "", "FromDbKey", "db_FromDbKey"},
+	{"state", "State", "Down", "state_Down"},
+	{"state", "State", "Up", "state_Up"},
 }
 
 type fakeImporter struct {
@@ -121,10 +126,18 @@ type tr struct {
 	muts   []string          // assigned receiver fields (lean names), order of struct declaration is not needed: sorted
 	logpk  map[string]bool
 	ptrs   map[string]bool // pointer-to-struct parameters
+	pkgvar map[string]ast.Expr // package-level variables with an initialiser (read as that value; writers are pinned by the extractor's inventory)
 	alias  map[string]bool // receiver names of inlined methods of the receiver (or of a struct embedded in it)
 	funcs  map[string]*ast.FuncDecl
 	rets   int
-	err    error
+	rtys   []string
+	// functions that index or slice: the definition is in the Option monad, `none` = the run-time panic of an out-of-range access
+	partial bool
+	useInt  bool     // such a function's `int` values are Lean Int (they may go negative before they are used as an index)
+	pend    []string // binds hoisted out of the expression being translated
+	nfresh  int
+	guarded int // > 0 while translating the right operand of && or ||: an index there would be evaluated too early
+	err     error
 }
 
 func (t *tr) fail(n ast.Node, msg string) string {
@@ -272,6 +285,14 @@ func (t *tr) expr(e ast.Expr) string {
 			if v, ok := o.(*types.Var); ok && v.Parent() == v.Pkg().Scope() && isError(v.Type()) {
 				return "\"" + x.Name + "\"" // a package-level error value is returned
 			}
+			if v, ok := o.(*types.Var); ok && v.Pkg() != nil && v.Parent() == v.Pkg().Scope() {
+				if init, ok := t.pkgvar[x.Name]; ok {
+					if tv, ok := t.info.Types[init]; ok && tv.Value != nil && tv.Value.Kind() == constant.Int {
+						return tv.Value.ExactString() // a package-level variable that holds a configuration constant
+					}
+				}
+				return t.fail(x, "package-level variable "+x.Name)
+			}
 		}
 		return x.Name
 	case *ast.SelectorExpr:
@@ -294,6 +315,37 @@ func (t *tr) expr(e ast.Expr) string {
 		return t.binary(x)
 	case *ast.CallExpr:
 		return t.call(x)
+	case *ast.IndexExpr:
+		if !t.partial || t.guarded > 0 || !(isBytes(t.typeOf(x.X)) || isStrs(t.typeOf(x.X))) {
+			return t.fail(x, "index expression")
+		}
+		t.nfresh++
+		nm := fmt.Sprintf("ix%d", t.nfresh)
+		i := t.expr(x.Index)
+		if t.useInt {
+			t.pend = append(t.pend, fmt.Sprintf("let %s ← (if 0 ≤ (%s : Int) then (%s)[(%s : Int).toNat]? else none)", nm, i, t.expr(x.X), i))
+		} else {
+			t.pend = append(t.pend, fmt.Sprintf("let %s ← (%s)[%s]?", nm, t.expr(x.X), i))
+		}
+		if isStrs(t.typeOf(x.X)) {
+			return nm
+		}
+		return nm + ".toNat"
+	case *ast.SliceExpr:
+		if !t.partial || t.guarded > 0 || !(isBytes(t.typeOf(x.X)) || isStrs(t.typeOf(x.X))) || x.Slice3 || !t.useInt {
+			return t.fail(x, "slice expression")
+		}
+		b := t.expr(x.X)
+		lo, hi := "0", "(("+b+").length : Int)"
+		if x.Low != nil {
+			lo = t.expr(x.Low)
+		}
+		if x.High != nil {
+			hi = t.expr(x.High)
+		}
+		// bounds as Go checks them, with len in place of cap (stricter; the convention of the whole model)
+		t.pend = append(t.pend, fmt.Sprintf("let _ ← (if 0 ≤ (%s : Int) ∧ (%s : Int) ≤ %s ∧ (%s : Int) ≤ ((%s).length : Int) then some () else none)", lo, lo, hi, hi, b))
+		return fmt.Sprintf("(((%s).drop (%s : Int).toNat).take ((%s : Int) - %s).toNat)", b, lo, hi, lo)
 	case *ast.CompositeLit:
 		if isBytes(t.typeOf(x)) {
 			var els []string
@@ -320,7 +372,17 @@ func (t *tr) binary(x *ast.BinaryExpr) string {
 			}
 		}
 	}
-	a, b := t.expr(x.X), t.expr(x.Y)
+	a := t.expr(x.X)
+	if x.Op == token.LAND || x.Op == token.LOR {
+		t.guarded++
+	}
+	b := t.expr(x.Y)
+	if x.Op == token.LAND || x.Op == token.LOR {
+		t.guarded--
+	}
+	if x.Op == token.SUB && t.useInt && isInt(t.typeOf(x)) {
+		return "((" + a + " : Int) - " + b + ")"
+	}
 	lt := t.typeOf(x.X)
 	if tv, ok := t.info.Types[x.X]; ok && tv.Value != nil { // untyped constant on the left takes the right type
 		lt = t.typeOf(x.Y)
@@ -383,6 +445,9 @@ func (t *tr) call(x *ast.CallExpr) string {
 		from := t.typeOf(x.Args[0])
 		a := t.expr(x.Args[0])
 		if n, ok := bitsOf(to); ok {
+			if isInt(from) && t.useInt {
+				return fmt.Sprintf("((%s).toNat %% %d)", a, uint64(1)<<uint(n))
+			}
 			if _, ok := bitsOf(from); ok || isInt(from) {
 				return fmt.Sprintf("(%s %% %d)", a, uint64(1)<<uint(n))
 			}
@@ -398,6 +463,9 @@ func (t *tr) call(x *ast.CallExpr) string {
 		case "len":
 			at := t.typeOf(x.Args[0])
 			if isBytes(at) || isStrs(at) {
+				if t.useInt {
+					return "((" + t.expr(x.Args[0]) + ").length : Int)"
+				}
 				return "(" + t.expr(x.Args[0]) + ").length"
 			}
 			if _, ok := at.Underlying().(*types.Slice); ok { // a slice whose length is all that is used
@@ -410,11 +478,23 @@ func (t *tr) call(x *ast.CallExpr) string {
 			}
 			return t.fail(x, "len of "+at.String())
 		case "append":
+			if len(x.Args) == 2 && !x.Ellipsis.IsValid() && isStrs(t.typeOf(x.Args[0])) && isBytes(t.typeOf(x.Args[1])) {
+				return "(" + t.expr(x.Args[0]) + " ++ [" + t.expr(x.Args[1]) + "])"
+			}
 			if len(x.Args) == 2 && x.Ellipsis.IsValid() && isBytes(t.typeOf(x.Args[0])) {
 				return "(" + t.expr(x.Args[0]) + " ++ " + t.expr(x.Args[1]) + ")"
 			}
 		}
 	case *ast.SelectorExpr:
+		if p, ok := f.X.(*ast.Ident); ok && p.Name == "bytes" && len(x.Args) == 2 && isBytes(t.typeOf(x.Args[0])) && isBytes(t.typeOf(x.Args[1])) {
+			a, b := t.expr(x.Args[0]), t.expr(x.Args[1])
+			switch f.Sel.Name {
+			case "HasPrefix":
+				return "(List.isPrefixOf " + b + " " + a + ")"
+			case "TrimPrefix":
+				return "(if List.isPrefixOf " + b + " " + a + " then List.drop (" + b + ").length " + a + " else " + a + ")"
+			}
+		}
 		if p, ok := f.X.(*ast.Ident); ok && p.Name == "errors" && f.Sel.Name == "New" {
 			return "\"errorf\""
 		}
@@ -449,6 +529,13 @@ func (t *tr) usedIdents(body *ast.BlockStmt) map[string]int {
 	walk = func(n ast.Node) bool {
 		if s, ok := n.(ast.Stmt); ok && t.isLogCall(s) {
 			return false
+		}
+		if es, ok := n.(*ast.ExprStmt); ok {
+			if c, ok := es.X.(*ast.CallExpr); ok {
+				if id, ok := c.Fun.(*ast.Ident); ok && id.Name == "panic" {
+					return false
+				}
+			}
 		}
 		if as, ok := n.(*ast.AssignStmt); ok {
 			for _, r := range as.Rhs {
@@ -486,13 +573,26 @@ func hasReturn(b *ast.BlockStmt) bool {
 func (t *tr) result(vals []string) string {
 	all := append([]string{}, vals...)
 	all = append(all, t.muts...)
+	r := "(" + strings.Join(all, ", ") + ")"
 	if len(all) == 0 {
-		return "()"
+		r = "()"
+	} else if len(all) == 1 {
+		r = all[0]
 	}
-	if len(all) == 1 {
-		return all[0]
+	if t.partial {
+		return "some " + r
 	}
-	return "(" + strings.Join(all, ", ") + ")"
+	return r
+}
+
+// take hands out (and clears) the binds hoisted while the last expressions were translated, one line each.
+func (t *tr) take(ind string) string {
+	var sb strings.Builder
+	for _, p := range t.pend {
+		sb.WriteString(ind + p + "\n")
+	}
+	t.pend = nil
+	return sb.String()
 }
 
 func (t *tr) stmts(ss []ast.Stmt, used map[string]int, ind string) string {
@@ -527,6 +627,28 @@ func (t *tr) stmts(ss []ast.Stmt, used map[string]int, ind string) string {
 			}
 		}
 	}
+	if es, ok := s.(*ast.ExprStmt); ok {
+		if c, ok := es.X.(*ast.CallExpr); ok {
+			if id, ok := c.Fun.(*ast.Ident); ok && id.Name == "panic" {
+				if !t.partial {
+					return ind + t.fail(s, "panic in a function without partial operations")
+				}
+				return ind + "none" // what follows a panic is never reached
+			}
+		}
+	}
+	if as, ok := s.(*ast.AssignStmt); ok && len(as.Lhs) == 1 && len(as.Rhs) == 1 {
+		// the text of a panic message: x := fmt.Sprintf(...) where only panic(x) looks at x
+		if li, ok := as.Lhs[0].(*ast.Ident); ok && used[li.Name] == 0 {
+			if c, ok := as.Rhs[0].(*ast.CallExpr); ok {
+				if sel, ok := c.Fun.(*ast.SelectorExpr); ok {
+					if p, ok := sel.X.(*ast.Ident); ok && p.Name == "fmt" && sel.Sel.Name == "Sprintf" {
+						return t.stmts(rest, used, ind)
+					}
+				}
+			}
+		}
+	}
 	if ids, ok := s.(*ast.IncDecStmt); ok {
 		// x++ / x-- is x += 1 / x -= 1
 		tok := token.ADD_ASSIGN
@@ -540,10 +662,14 @@ func (t *tr) stmts(ss []ast.Stmt, used map[string]int, ind string) string {
 	switch x := s.(type) {
 	case *ast.ReturnStmt:
 		var vals []string
-		for _, r := range x.Results {
+		for i, r := range x.Results {
+			if id, ok := r.(*ast.Ident); ok && id.Name == "nil" && i < len(t.rtys) && t.rtys[i] == "Bytes" {
+				vals = append(vals, "([] : Bytes)") // the nil slice
+				continue
+			}
 			vals = append(vals, t.expr(r))
 		}
-		return ind + t.result(vals)
+		return t.take(ind) + ind + t.result(vals)
 	case *ast.DeclStmt:
 		gd, ok := x.Decl.(*ast.GenDecl)
 		if ok && gd.Tok == token.VAR && len(gd.Specs) == 1 {
@@ -610,7 +736,7 @@ func (t *tr) stmts(ss []ast.Stmt, used map[string]int, ind string) string {
 		default:
 			return ind + t.fail(x, "assignment operator "+x.Tok.String())
 		}
-		return ind + "let " + name + " := " + rhs + "\n" + t.stmts(rest, used, ind)
+		return t.take(ind) + ind + "let " + name + " := " + rhs + "\n" + t.stmts(rest, used, ind)
 	case *ast.IfStmt:
 		if x.Init != nil {
 			return ind + t.fail(x, "if with init")
@@ -626,7 +752,7 @@ func (t *tr) stmts(ss []ast.Stmt, used map[string]int, ind string) string {
 		default:
 			return ind + t.fail(x, "else if")
 		}
-		return ind + "if " + c + " then\n" + t.stmts(thenS, used, ind+"  ") + "\n" + ind + "else\n" + t.stmts(elseS, used, ind+"  ")
+		return t.take(ind) + ind + "if " + c + " then\n" + t.stmts(thenS, used, ind+"  ") + "\n" + ind + "else\n" + t.stmts(elseS, used, ind+"  ")
 	}
 	return ind + t.fail(s, fmt.Sprintf("statement %T", s))
 }
@@ -714,6 +840,21 @@ func translate(repo string, tg target) (string, error) {
 		return "", fmt.Errorf("function %s.%s not found in %s", tg.recv, tg.fn, tg.dir)
 	}
 	t := &tr{info: info, fset: fset, ptypes: map[string]string{}, logpk: logpk, ptrs: map[string]bool{}, alias: map[string]bool{}, funcs: map[string]*ast.FuncDecl{}}
+	t.pkgvar = map[string]ast.Expr{}
+	for _, f := range files {
+		for _, d := range f.Decls {
+			if gd, ok := d.(*ast.GenDecl); ok && gd.Tok == token.VAR {
+				for _, sp := range gd.Specs {
+					vs := sp.(*ast.ValueSpec)
+					for i, n := range vs.Names {
+						if i < len(vs.Values) {
+							t.pkgvar[n.Name] = vs.Values[i]
+						}
+					}
+				}
+			}
+		}
+	}
 	dup := map[string]bool{}
 	for _, f := range files {
 		for _, d := range f.Decls {
@@ -767,6 +908,18 @@ func translate(repo string, tg target) (string, error) {
 		return true
 	}
 	ast.Inspect(fd.Body, scan)
+	ast.Inspect(fd.Body, func(n ast.Node) bool {
+		switch n.(type) {
+		case *ast.IndexExpr, *ast.SliceExpr:
+			t.partial, t.useInt = true, true
+		}
+		if c, ok := n.(*ast.CallExpr); ok {
+			if id, ok := c.Fun.(*ast.Ident); ok && id.Name == "panic" {
+				t.partial, t.useInt = true, true
+			}
+		}
+		return true
+	})
 	for m := range mut {
 		t.muts = append(t.muts, m)
 	}
@@ -800,6 +953,7 @@ func translate(repo string, tg target) (string, error) {
 		}
 	}
 	t.rets = len(rtypes)
+	t.rtys = append([]string{}, rtypes...)
 	body := t.stmts(fd.Body.List, t.usedIdents(fd.Body), "  ")
 	for _, m := range t.muts {
 		rtypes = append(rtypes, t.ptypes[m])
@@ -833,7 +987,11 @@ func translate(repo string, tg target) (string, error) {
 	if len(t.muts) > 0 {
 		fmt.Fprintf(&sb, ", then the assigned receiver fields %s", strings.Join(t.muts, ", "))
 	}
-	fmt.Fprintf(&sb, ") -/\ndef %s %s : %s :=\n%s\n", tg.name, strings.Join(ps, " "), rt, body)
+	if t.partial {
+		fmt.Fprintf(&sb, "; `none` = a run-time panic of an index or slice expression) -/\ndef %s %s : Option (%s) := do\n%s\n", tg.name, strings.Join(ps, " "), rt, body)
+	} else {
+		fmt.Fprintf(&sb, ") -/\ndef %s %s : %s :=\n%s\n", tg.name, strings.Join(ps, " "), rt, body)
+	}
 	return sb.String(), nil
 }
 
